@@ -278,6 +278,17 @@ func regress(c *hc.Ctx) {
 		})
 		return "" // a panic of the sweep here is a separate class; only termination is at stake
 	})
+	// 04e22f3: intersectionCircleCircle returned NaN for tangent circles (ArcsJoin next to a control point
+	// 4e-11 from the start) and Stroke panicked "path has NaN or Inf"
+	run("panic:Stroke:path-has-NaN-or-Inf", "Q/A/C with a control point 4e-11 from the vertex .Stroke(0.8, ButtCap, ArcsJoin)", func() string {
+		q := P("M-2 6Q4 2 6.25 -10A132.70548417118474 5.308219366847389 160.99999999999997 1 1 4 2C4.00000000004 1.99999999997 2 -1 -2 6").Stroke(0.8, canvas.ButtCap, canvas.ArcsJoin, 0.01)
+		for _, v := range q.Data() {
+			if math.IsNaN(v) || math.IsInf(v, 0) {
+				return "the stroke outline contains " + fmt.Sprint(v)
+			}
+		}
+		return ""
+	})
 }
 
 func hexPath(s string) *canvas.Path {
